@@ -112,6 +112,8 @@ def finalize_cfg(cfg):
     """Cross-constraints between drawn parameters, applied after a spec's draw() (specs change batch sizes after
     draw_common): the simulated machine and links must be able to carry the traffic the configuration produces -
     premises ("timely ticks", connectivity) of the liveness properties, not their subject."""
+    # files opened for writing buffer in user space as CPython does (replay files recorded earlier lack the flag)
+    cfg.setdefault('fs_ubuf', True)
     conf = cfg.get('conf') or {}
     B = conf.get('appendEntriesBatchSizeBytes', 1 << 16)
     if 'cpu_cost' in cfg:
